@@ -145,6 +145,7 @@ func ReadFromSSAWithOptions(i io.Reader, opts SSAOptions) (o *Subtitles, err err
 	for scanner.Scan() {
 		// Fetch line
 		line = strings.TrimSpace(scanner.Text())
+		verifEmit("ssa.line", i, sectionName, len(format), len(ss), len(es))
 
 		// Remove BOM header
 		if isFirstLine {
